@@ -114,7 +114,11 @@ Definition impl_attr_of (c : ctx) : option impl_attr :=
 (** the functions the macro was asked to put behind the trait: [(attrs, vis, sig, body)] *)
 Definition source_fns (i : input) : option (list (list attr * vis * sig * toks)) :=
   match i with
-  | InFn h s body => Some [(h_attrs h, h_vis h, s, body)]
+  | InFn h s body =>
+      (* a leading [unsafe] is part of the function's signature *)
+      Some [(h_attrs h, h_vis h,
+             mkSig (s_const s) (s_async s) (s_unsafe s || h_unsafe h) (s_abi s) (s_name s) (s_gen s)
+                   (s_inputs s) (s_variadic s) (s_output s), body)]
   | InMod _ _ body sigs _ => match split_body true sigs body with Ok (l, _) => Some (body_fns l) | _ => None end
   | InImpl _ _ _ body sigs _ => match split_body false sigs body with Ok (l, _) => Some (body_fns l) | _ => None end
   | _ => None
